@@ -1,0 +1,21 @@
+// Copyright 2018 GRAIL, Inc. All rights reserved.
+// Use of this source code is governed by the Apache 2.0
+// license that can be found in the LICENSE file.
+
+//go:build verif
+// +build verif
+
+package exec
+
+// verifHook, when set (by a verification harness, before any evaluation
+// starts), receives one event per linearization point of the evaluator,
+// executors and cluster manager. It is called while the lock protecting the
+// reported state is still held. It may block (the harness uses this as a
+// scheduler gate).
+var verifHook func(ev string, args ...interface{})
+
+func vtrace(ev string, args ...interface{}) {
+	if h := verifHook; h != nil {
+		h(ev, args...)
+	}
+}
